@@ -29,7 +29,7 @@ def main(tier):
     ck.assumptions += ["prefix and probe use the same precision (each harness executable links one precision); cross-precision carry-over "
                        "is not exercised", "bitwise comparison with one thread; the library is built with its own kernels (no vendor BLAS)"]
     wd = os.path.join(ck.dir, "api")
-    hs, r = api.enumerate_histories(wd, 4 if quick else 5, ["mat", "vals", "gssv", "gssvx", "destroy", "singular", "user", "query", "equil", "trans"],
+    hs, r = api.enumerate_histories(wd, 4 if quick else 5, ["mat", "vals", "gssv", "gssvx", "destroy", "singular", "user", "query", "equil", "trans"], simulate=None if quick else 4000,
                                     name="C18", timeout=1500)
     ck.model(r["distinct"], r["generated"])
 
